@@ -139,11 +139,12 @@ func liveAppends(pa *provAnalysis, fr *Frame) []provSet {
 }
 
 func checkC08(c *Ctx, r *Report) {
-	r.Rules = []string{"R-conffiles (deb, ipk)", "R-backup (archlinux)", "R-rpmflag", "R-ghost-mode", "R-deb-skips-ghost", "F11 glob expansion keeps the declared type", "cross-check of rpmpack flag constants (thorough)", "R-rpm-only rpm-only entry types planned for rpm only", "R-rpmflag-field every rpm file record's Type is set from its own FileType value", "R-prepared contents are read from the prepared Info only", "R-type-stable an entry's type is assigned only on entries the assigning function has just created", "R-copy-type an entry rebuilt from another takes its type over", "plan-K2c (imported from C05)"}
+	r.Rules = []string{"R-conffiles (deb, ipk)", "R-backup (archlinux)", "R-rpmflag", "R-ghost-mode", "R-deb-skips-ghost", "F11 glob expansion keeps the declared type", "cross-check of rpmpack flag constants (thorough)", "R-rpm-only rpm-only entry types planned for rpm only", "R-rpmflag-field every rpm file record's Type is set from its own FileType value", "R-prepared contents are read from the prepared Info only", "R-type-stable an entry's type is assigned only on entries the assigning function has just created", "R-copy-type an entry rebuilt from another takes its type over", "plan-K2c (imported from C05)", "R-prepare-always nfpm.PrepareForPackager plans the contents on every successful call", "plan-D1+D5 typed entries go through the planner mechanism that keeps their type (imported from C05)"}
 	r.Explanation = "Exhaustive decision of the (prepared entry type x packager) registration matrix by abstract evaluation over go/ssa: for every prepared type the deb and ipk conffiles builders and the archlinux backup loop are evaluated with the entry's type fixed, and registration (an append of the absolute destination / a 'backup' key-value write of the relative destination) must be live exactly for config, config|noreplace and config|missingok; the rpm payload writer is evaluated likewise and the set of rpmpack file-type constants that can reach the file constructor must be exactly the RPMFILE_* value the statement names for that type; the ghost default mode 0644 is stored iff the mode is 0; deb skips ghost entries; glob expansion copies the declaring entry's type. Together with the relevance table of C05 (types that never reach a format) this covers every cell; nothing is executed."
 	r.Explanation += " (R-rpmflag-field) every rpm file record's Type field is stored from a FileType value of its own construction on every path. (R-prepared) after Package has handed an Info to nfpm.PrepareForPackager, every function that reads .Contents reads it from that same Info (followed through parameters, captured variables and identity-returning helpers)."
 	r.Explanation += " (R-type-stable) every store to a Content's Type field targets an allocation of the storing function or the result of a function that returns only fresh allocations."
 	r.Explanation += " (R-copy-type) every new Content whose fields are loaded from the like-named fields of an existing entry also sets Type."
+	r.Explanation += " (R-prepare-always) nfpm.PrepareForPackager, evaluated with name, architecture and version set, must-reaches the planner call."
 	r.Assumptions = []string{
 		"rpmpack's FileType constants carry the RPMFILE_* values (checked against the constants' values as compiled; rpmpack's use of them is the dependency's)",
 		"what a glob matches on disk is not analysed",
@@ -253,10 +254,24 @@ func checkC08(c *Ctx, r *Report) {
 	checkPreparedInfo(c, r)
 	checkTypeStable(c, r)
 	checkCopiesKeepType(c, r)
+	checkAlwaysPlans(c, r)
 	// a declared entry is never dropped in favour of an earlier one without
 	// the collision being reported (rule of C05): the typed entry of an
 	// overlapping pair would otherwise lose its registration silently
 	r.Floor("plan-K2c", importRules(c, r, checkC05, "plan-", []string{"K2c"}, nil), 4)
+	// through which planner mechanism a typed entry goes decides whether it
+	// keeps its type: config entries by glob expansion (which copies the
+	// declaring entry's type, F11), the rpm-only documentation types as single
+	// entries - a tree walk types every file as plain, a glob expansion turns
+	// a linked source into a symlink entry (decision table of C05)
+	r.Floor("plan-D1+D5", importRules(c, r, checkC05, "plan-", []string{"D1+D5"}, func(o Obligation) bool {
+		for _, t := range []string{"config", "doc", "licence", "license", "readme", "ghost"} {
+			if strings.Contains(o.Construct, `type=\"`+t) || strings.Contains(o.Construct, `type="`+t) {
+				return strings.Contains(o.Construct, `tag=""`) || strings.Contains(o.Construct, `tag=\"\"`)
+			}
+		}
+		return false
+	}), 8)
 
 	// ---- rpm flags ----
 	if pk := c.PackagerByFormat("rpm"); pk != nil {
@@ -1007,4 +1022,31 @@ func checkCopiesKeepType(c *Ctx, r *Report) {
 		})
 	}
 	r.Floor("R-copy-type", n, 1)
+}
+
+// checkAlwaysPlans (R-prepare-always): which entries a format ships - and with
+// which type - is decided by the planner for *that* format. Every successful
+// call of nfpm.PrepareForPackager therefore runs the planner: a shortcut for
+// an Info that "was prepared already" would hand one format the plan made
+// for another (rpm-only doc entries inside a deb).
+func checkAlwaysPlans(c *Ctx, r *Report) {
+	prep := c.Func("", "PrepareForPackager")
+	plan := c.Func("files", "PrepareForPackager")
+	if prep == nil || plan == nil {
+		r.Unresolved("nfpm.PrepareForPackager / files.PrepareForPackager", "not found")
+		return
+	}
+	ev := newEvaluator(c)
+	info := newAObj("info")
+	info.Fields["Name"] = cStr("n")
+	info.Fields["Arch"] = cStr("amd64")
+	info.Fields["Version"] = cStr("1.0.0")
+	ev.Defaults[c.infoPtrKey()] = info
+	fr := ev.Explore(prep, make([]AV, len(prep.Params)))
+	must := fr != nil && fr.MustReach(func(in ssa.Instruction, _ *Frame) bool {
+		call, ok := in.(*ssa.Call)
+		return ok && call.Call.StaticCallee() == plan
+	})
+	r.Check(must, "R-prepare-always", "nfpm.PrepareForPackager plans the contents on every successful call", c.pos(prep.Pos()),
+		"with name, architecture and version set some path returns success without calling the planner: the contents would keep whatever an earlier preparation (for another format) made of them")
 }
